@@ -985,7 +985,8 @@ func barePatterns(body string, vars []string) []string {
 					ok = false
 				}
 			}
-			if ok && !seen[term] {
+			if ok && !seen[term] && !strings.Contains(term, "(ite ") {
+				// (z3 refuses patterns that contain if-then-else)
 				seen[term] = true
 				per[v] = append(per[v], term)
 			}
